@@ -32,12 +32,88 @@ package policy
 //@           invariant forall j int :: 0 <= j && j < k ==> ppasses(sem(p[j], node))
 //@           decreases len(p) - k
 //@
+//@ // ---- C11: the four-valued semantics of statements ------------------------------------------------------------
+//@ // outcomes: 0 true, 1 false, 2 no data, 3 optional no data; rank orders them from best to worst
+//@ pure func rank(r int) int = r == 0 ? 0 : (r == 3 ? 1 : (r == 2 ? 2 : 3))
+//@ pure func icmp(a int, b int) int = a < b ? -1 : (a > b ? 1 : 0)
+//@ pure func cmpHolds(kind string, o int) bool = kind == ">" ? o == 1 : (kind == ">=" ? (o == 0 || o == 1) : (kind == "<" ? o == -1 : (o == 0 || o == -1)))
+//@ // the classical reading of < <= > >= : numbers of the same kind only, integers that fit int64, finite floats
+//@ pure func ordSpec(kind string, expected ipld.Node, actual ipld.Node) bool =
+//@     (nodeKind(expected) == datamodel.Kind_Int && nodeKind(actual) == datamodel.Kind_Int) ? (asIntErr(actual) == nil && asIntErr(expected) == nil && cmpHolds(kind, icmp(nodeInt(actual), nodeInt(expected))))
+//@   : ((nodeKind(expected) == datamodel.Kind_Float && nodeKind(actual) == datamodel.Kind_Float) ? (!isInfF(nodeFloat(actual)) && !isNaNF(nodeFloat(actual)) && !isInfF(nodeFloat(expected)) && !isNaNF(nodeFloat(expected)) && cmpHolds(kind, fcmp(nodeFloat(actual), nodeFloat(expected)))) : false)
+//@ // a leaf: no data when the selector fails, optional no data when it yields no value, else the truth of the comparison
+//@ pure func leafSem(sel selector.Selector, n ipld.Node, holds bool) int = !selOK(sel, n) ? 2 : (selVal(sel, n) == nil ? 3 : (holds ? 0 : 1))
+//@ // sem is defined by structural recursion; and / all take the worst outcome of their operands / elements, or / any the
+//@ // best one (so the outcome cannot depend on their order); ["or", []] is true, any over an empty list is false
+//@ pure func semDef(s Statement, n ipld.Node) bool =
+//@     0 <= sem(s, n) && sem(s, n) <= 3
+//@  && (s is equality ==> sem(s, n) == leafSem(s.(equality).selector, n, s.(equality).kind == "==" ? deepEq(s.(equality).value, selVal(s.(equality).selector, n)) : ordSpec(s.(equality).kind, s.(equality).value, selVal(s.(equality).selector, n))))
+//@  && (s is wildcard ==> sem(s, n) == leafSem(s.(wildcard).selector, n, asStringErr(selVal(s.(wildcard).selector, n)) == nil && globM(string(s.(wildcard).pattern), nodeStr(selVal(s.(wildcard).selector, n)), 0, 0)))
+//@  && (s is negation ==> sem(s, n) == (sem(s.(negation).statement, n) == 0 ? 1 : (sem(s.(negation).statement, n) == 1 ? 0 : sem(s.(negation).statement, n))))
+//@  && ((s is connective && s.(connective).kind == "and") ==>
+//@        (forall j int :: {s.(connective).statements[j]} 0 <= j && j < len(s.(connective).statements) ==> rank(sem(s.(connective).statements[j], n)) <= rank(sem(s, n)))
+//@     && (len(s.(connective).statements) == 0 ? sem(s, n) == 0 : (exists j int :: 0 <= j && j < len(s.(connective).statements) && sem(s.(connective).statements[j], n) == sem(s, n))))
+//@  && ((s is connective && s.(connective).kind == "or") ==>
+//@        (len(s.(connective).statements) == 0 ? sem(s, n) == 0 :
+//@           ((forall j int :: {s.(connective).statements[j]} 0 <= j && j < len(s.(connective).statements) ==> rank(sem(s.(connective).statements[j], n)) >= rank(sem(s, n)))
+//@         && (exists j int :: 0 <= j && j < len(s.(connective).statements) && sem(s.(connective).statements[j], n) == sem(s, n)))))
+//@  && (s is quantifier ==> semQuant(s, n, s.(quantifier).kind == "all", s.(quantifier).selector, s.(quantifier).statement))
+//@ pure func semQuant(s Statement, n ipld.Node, isAll bool, sel selector.Selector, inner Statement) bool =
+//@     !selOK(sel, n) ? sem(s, n) == 2
+//@   : (selVal(sel, n) == nil ? sem(s, n) == 3
+//@   : (nodeKind(selVal(sel, n)) != datamodel.Kind_List ? sem(s, n) == 1
+//@   : (isAll ?
+//@        ((forall i int :: {listElem(selVal(sel, n), i)} 0 <= i && i < listLen(selVal(sel, n)) ==> rank(sem(inner, listElem(selVal(sel, n), i))) <= rank(sem(s, n)))
+//@      && (listLen(selVal(sel, n)) == 0 ? sem(s, n) == 0 : (exists i int :: 0 <= i && i < listLen(selVal(sel, n)) && sem(inner, listElem(selVal(sel, n), i)) == sem(s, n))))
+//@      : (listLen(selVal(sel, n)) == 0 ? sem(s, n) == 1 :
+//@        ((forall i int :: {listElem(selVal(sel, n), i)} 0 <= i && i < listLen(selVal(sel, n)) ==> rank(sem(inner, listElem(selVal(sel, n), i))) >= rank(sem(s, n)))
+//@      && (exists i int :: 0 <= i && i < listLen(selVal(sel, n)) && sem(inner, listElem(selVal(sel, n), i)) == sem(s, n)))))))
+//@
 //@ func matchStatement
-//@   trusted
-//@   requires cur != nil
-//@   ensures result0 == sem(cur, node)
-//@   ensures (result0 == 1 || result0 == 2) ==> leafMost != nil
-//@   ensures 0 <= result0 && result0 <= 3
+//@   requires cur != nil && wfStmt(cur)
+//@   given forall s Statement :: {wfStmt(s)} wfStmt(s) ==> wfStmtUnfold(s)
+//@   given forall s Statement, n ipld.Node :: {sem(s, n)} wfStmt(s) ==> semDef(s, n)
+//@   use node_sizes, node_list_children, star_absorbs, star_earlier
+//@   ensures [C11,C03] sem: result0 == sem(cur, node)
+//@   ensures [C11] leaf: (result0 == 1 || result0 == 2) ==> leafMost != nil
+//@   ensures [C09] total: true
+//@   assigns [C20] nothing
+//@   decreases stmtSize(cur)
+//@   // and: the worst outcome so far, never false (a false operand returns at once)
+//@   loop 0: invariant 0 <= k && k <= len(s.statements) && 0 <= worst && worst <= 3 && worst != 1 && (k == 0 ==> worst == 0) && (worst == 2 ==> worstLeaf != nil)
+//@   loop 0: invariant forall j int :: {s.statements[j]} 0 <= j && j < k ==> rank(sem(s.statements[j], node)) <= rank(worst)
+//@   loop 0: invariant worst == 0 || (exists j int :: 0 <= j && j < k && sem(s.statements[j], node) == worst)
+//@           decreases len(s.statements) - k
+//@   // or: the best outcome so far, never true (a true operand returns at once)
+//@   loop 1: invariant 0 <= k && k <= len(s.statements) && 0 <= best && best <= 3 && best != 0 && (k == 0 ==> best == 1) && ((best == 1 || best == 2) ==> bestLeaf != nil)
+//@   loop 1: invariant forall j int :: {s.statements[j]} 0 <= j && j < k ==> rank(sem(s.statements[j], node)) >= rank(best)
+//@   loop 1: invariant best == 1 || (exists j int :: 0 <= j && j < k && sem(s.statements[j], node) == best)
+//@           decreases len(s.statements) - k
+//@   // all / any: the same over the elements of the selected list
+//@   loop 2: invariant it != nil && litNode(it) == res && 0 <= litPos(it) && litPos(it) <= listLen(res) && nodeKind(res) == datamodel.Kind_List && 0 <= worst && worst <= 3 && worst != 1 && (litPos(it) == 0 ==> worst == 0) && (worst == 2 ==> worstLeaf != nil)
+//@   loop 2: invariant forall i int :: {listElem(res, i)} 0 <= i && i < litPos(it) ==> rank(sem(s.statement, listElem(res, i))) <= rank(worst)
+//@   loop 2: invariant worst == 0 || (exists i int :: 0 <= i && i < litPos(it) && sem(s.statement, listElem(res, i)) == worst)
+//@           decreases listLen(res) - litPos(it)
+//@   loop 3: invariant it != nil && litNode(it) == res && 0 <= litPos(it) && litPos(it) <= listLen(res) && nodeKind(res) == datamodel.Kind_List && 0 <= best && best <= 3 && best != 0 && (litPos(it) == 0 ==> best == 1) && ((best == 1 || best == 2) ==> bestLeaf != nil)
+//@   loop 3: invariant forall i int :: {listElem(res, i)} 0 <= i && i < litPos(it) ==> rank(sem(s.statement, listElem(res, i))) >= rank(best)
+//@   loop 3: invariant best == 1 || (exists i int :: 0 <= i && i < litPos(it) && sem(s.statement, listElem(res, i)) == best)
+//@           decreases listLen(res) - litPos(it)
+//@ // the Kind methods return what stmtKind says
+//@ func (equality).Kind
+//@   inline
+//@   ensures [C11] kind: result == e.kind
+//@ func (connective).Kind
+//@   inline
+//@   ensures [C11] kind: result == c.kind
+//@ func (quantifier).Kind
+//@   inline
+//@   ensures [C11] kind: result == n.kind
+//@ func (negation).Kind
+//@   inline
+//@   ensures [C11] kind: result == "not"
+//@ func (wildcard).Kind
+//@   inline
+//@   ensures [C11] kind: result == "like"
 //@
 //@ // ---- like / glob -----------------------------------------------------------------------------
 //@ // globM(p, s, i, j): the suffix s[j:] belongs to the language of the pattern suffix p[i:]
@@ -121,6 +197,12 @@ package policy
 //@ ghost func stmtsSize(s []Statement) int
 //@ pure func wfStmtUnfold(s Statement) bool =
 //@     (s is equality || s is negation || s is connective || s is wildcard || s is quantifier) && 0 <= stmtSize(s)
+//@  && (s is equality ==> (s.(equality).kind == "==" || s.(equality).kind == ">" || s.(equality).kind == ">=" || s.(equality).kind == "<" || s.(equality).kind == "<="))
+//@  && (s is equality ==> s.(equality).value != nil && wfSel(s.(equality).selector))
+//@  && (s is wildcard ==> wfSel(s.(wildcard).selector))
+//@  && (s is quantifier ==> wfSel(s.(quantifier).selector))
+//@  && (s is connective ==> (s.(connective).kind == "and" || s.(connective).kind == "or"))
+//@  && (s is quantifier ==> (s.(quantifier).kind == "all" || s.(quantifier).kind == "any"))
 //@  && (s is negation ==> s.(negation).statement != nil && wfStmt(s.(negation).statement) && stmtSize(s.(negation).statement) < stmtSize(s))
 //@  && (s is quantifier ==> s.(quantifier).statement != nil && wfStmt(s.(quantifier).statement) && stmtSize(s.(quantifier).statement) < stmtSize(s))
 //@  && (s is connective ==> 0 <= stmtsSize(s.(connective).statements) && stmtsSize(s.(connective).statements) < stmtSize(s))
